@@ -407,7 +407,11 @@ class Program:
             b = rng.choice(pool)
         elif r < 0.8:
             t = rng.choice(self.ifaces)
-            b = InterfaceClass(t.__name__, (Interface,), {}, __module__=self.mod if rng.random() < 0.5 else 'other')
+            # same name, different module (an equal-keyed twin would collide with the original in the
+            # weak ``dependents`` dictionary of their common base - an artefact, see DESIGN 2.5; equal
+            # keys are C12's subject)
+            self.serial += 1
+            b = InterfaceClass(t.__name__, (Interface,), {}, __module__='%s_t%d' % (self.mod, self.serial))
         else:
             class Named:
                 zname = 'named'
